@@ -116,7 +116,16 @@ def r2(rep, prog):
     rep.check(okb, R, "INDEX_WRITER_LOCK is non-blocking", "is_blocking: false", "INDEX_WRITER_LOCK is not `is_blocking: false`: a second writer would wait instead of failing with a lock error")
     rb = prog.body(RB)
     if rb is not None:
-        for b, t in calls_to(prog, rb, {IWN}):
+        news = calls_to(prog, rb, {IWN})
+        rep.check(len(news) == 1, R, "rollback builds the replacement writer itself", "1 call to IndexWriter::new",
+                  "IndexWriter::rollback no longer passes its lock to IndexWriter::new (%d calls): the lock is not kept across rollback" % len(news), site=rb.span)
+        # the lock taken out of self must not be dropped / released inside rollback
+        rel = [(b, t) for b, t in rb.calls() if t.get("f") in ("core::mem::drop",) and any(DL in rb.types[g]["s"] for g in t.get("ga", []))]
+        acq = [(b, t) for b, t in rb.calls() if prog.call_targets(t) & (family(prog, D + "acquire_lock") | {WWO})]
+        rep.check(not rel and not acq, R, "rollback neither releases nor re-acquires the writer lock", "no drop(lock), no acquire_lock / writer_with_options inside rollback",
+                  "IndexWriter::rollback releases (%d) or re-acquires (%d) the writer lock: another writer can be created in between and the rolled-back writer is left without a lock" % (len(rel), len(acq)),
+                  site=site(rb, (rel or acq)[0][0]) if (rel or acq) else rb.span)
+        for b, t in news:
             tr = trace_through(rb, op_local(t["args"][2]), transparent=tuple(prog.names(r"Option::<T>::(take|expect|unwrap)$")) + ("core::ops::deref::DerefMut::deref_mut",))
             okk = any(s[0] == "field" and s[2] == "_directory_lock" for s in tr) and any(s[0] == "call" and s[1].endswith("Option::<T>::take") for s in trace_through(rb, op_local(t["args"][2]), transparent=tuple(prog.names(r"Option::<T>::(expect|unwrap)$"))))
             rep.check(okk, R, "rollback hands its own lock to the new writer", "new(.., self._directory_lock.take().expect(..))",
